@@ -42,11 +42,20 @@ class Program:
         rx = re.compile(pattern)
         return [f for k, f in self.fns.items() if rx.search(k)]
 
-    def one(self, name):
+    def one(self, name, follow=True):
+        """The function anchored by `name`. With follow=True a plain wrapper (no branches, result = one crate function called
+        with the wrapper's own parameters in order, plus constants) is replaced by the function it delegates to, so that a
+        body moved behind `fn f(x) { self.f_at(x, 0) }` is still the body that gets analysed."""
         f = self.fns.get(name)
         if f is None:
             from .facts import Broken
             raise Broken("anchor missing: function %s" % name)
+        if follow:
+            from . import analyses
+            try:
+                return analyses.delegate_target(self, f)
+            except Exception:
+                return f
         return f
 
     def closures_of(self, fn, recursive=True):
